@@ -3,6 +3,7 @@ package mount
 import (
 	"context"
 	"errors"
+	"io"
 	"sync"
 
 	"github.com/hack-pad/hackpadfs"
@@ -197,6 +198,18 @@ func VerifC14Handle() {
 	}
 	store.faultAt, store.faultLazy, store.calls = fault, lazy, 0
 	K := verifParam("K")
+	// model of what the handle reported as done: offset, size and the bytes it claims to have written
+	// (after a mutation that reported failure the handle's own view is unspecified: it may or may not include it)
+	off, size, unknown := int64(0), int64(len(data)), false
+	fresh := func(when string) []byte {
+		// a fresh look-up, outside the fault schedule (the store's call counter is restored afterwards)
+		savedAt, savedCalls := store.faultAt, store.calls
+		store.faultAt = -1
+		got, rerr := hackpadfs.ReadFile(fs, "b")
+		store.faultAt, store.calls = savedAt, savedCalls
+		verifAssert(rerr == nil, when+": a fresh ReadFile fails although the store is healthy")
+		return got
+	}
 	for i := 0; i < K; i++ {
 		c := verifChoice(verifName("call", i), 6)
 		verifTag("last-call", []string{"Read", "Stat", "Write", "Seek-end", "Truncate", "ReadDir"}[c])
@@ -208,6 +221,12 @@ func VerifC14Handle() {
 			if n == 1 && rerr == nil && target == "b" {
 				verifAssert(buf[0] == data[0] || buf[0] == data[1] || buf[0] == 7, "Read returned a byte that was never written")
 			}
+			if target == "b" {
+				if rerr == io.EOF && n == 0 && !unknown {
+					verifAssert(off >= size, "Read reports a clean end of file before the end of what the store holds (a failed load was swallowed)")
+				}
+				off += int64(n)
+			}
 		case 1:
 			info, serr := h.Stat()
 			if serr == nil {
@@ -215,11 +234,35 @@ func VerifC14Handle() {
 				_ = info.Mode()
 			}
 		case 2:
-			_, _ = hackpadfs.WriteFile(h, []byte{7})
+			n, werr := hackpadfs.WriteFile(h, []byte{7})
+			if werr != nil {
+				unknown = true
+			}
+			if target == "b" && werr == nil {
+				verifAssert(n == 1, "Write reports success with a short count")
+				got := fresh("after a successful Write")
+				verifAssert(int64(len(got)) > off && got[off] == 7, "Write reported success but the store does not hold the byte")
+				off++
+				if off > size {
+					size = off
+				}
+			}
 		case 3:
-			_, _ = hackpadfs.SeekFile(h, 0, 2)
+			pos, serr := hackpadfs.SeekFile(h, 0, 2)
+			if target == "b" && serr == nil && !unknown {
+				verifAssert(pos == size, "Seek to the end reports success with a position that is not the file's size")
+				off = pos
+			}
 		case 4:
-			_ = hackpadfs.TruncateFile(h, 1)
+			terr := hackpadfs.TruncateFile(h, 1)
+			if terr != nil {
+				unknown = true
+			}
+			if target == "b" && terr == nil {
+				got := fresh("after a successful Truncate")
+				verifAssert(len(got) == 1, "Truncate reported success but the store does not hold a file of that size")
+				size = 1
+			}
 		case 5:
 			_, _ = hackpadfs.ReadDirFile(h, -1)
 		}
